@@ -13,7 +13,7 @@ pub const ATTR_VALS: &[&str] = &[
     "", "v", ">", "/>", "a>b", "--", "]]>", "?>", "&amp;", " x ", "<", "</a>", "=", "&#65;", "\u{e9}", "/",
 ];
 pub const COMMENTS: &[&str] = &[
-    "", " c ", ">", "->", "-", "</a>", "<a>", "--", " -- ", "]]>", "?>", "'", "\"", "x", "->-", "-->x", "a--",
+    "", " c ", ">", "->", "-", "</a>", "<a>", "--", " -- ", "]]>", "?>", "'", "\"", "x", "->-", "a--",
     "!", "<!--",
 ];
 pub const CDATAS: &[&str] = &[
@@ -49,7 +49,7 @@ pub const BROKEN: &[&str] = &[
     "<![cdata[x]]>", "<!DOCTYPE>", "<!DOCTYPE >", "<!DOCTYPE x [<!ENTITY e '>'>]>", "<!doctype html>", "<!-->",
     "<!--->", "<?>", "<??>", "<a b=>", "<a b='>", "<a b=\">", "<a 'x'>", "</a b='>'>", "<a/ >", "<a//>", "<!D>",
     "<![CDATA[]>", "<![CDATA[]]", "<!---->", "<!---", "\u{feff}", "<?xml", "<?xml version='1.0'", "<a\n",
-    "<![", "<!DOCTYPE x [<", "<!DOCTYPE x <a> <b>>", "]]>", "-->", "?>", "/>", "<a =''>", "<a a='1' a='2'>",
+    "<![", "<!---->x-->", "<!DOCTYPE x [<", "<!DOCTYPE x <a> <b>>", "]]>", "-->", "?>", "/>", "<a =''>", "<a a='1' a='2'>",
 ];
 
 pub fn ws(rng: &mut Rng) -> &'static str {
